@@ -289,8 +289,11 @@ watch:
 }
 
 // c09LockDiscipline checks, without needing a race, that every return path of
-// AllocFrame/FreeFrame leaves the allocator lock released, and that both calls
-// really wait for the lock.
+// AllocFrame/FreeFrame leaves the allocator lock released, and that a call arriving
+// while another task is inside the allocator has its full effect.
+// c09LockFreeCalls counts calls that completed while the harness held the allocator lock.
+var c09LockFreeCalls atomic.Int64
+
 func c09LockDiscipline(outside []uint64) *vlib.Failure {
 	alloc := &bitmapAllocator
 	free := func(path string) *vlib.Failure {
@@ -334,37 +337,81 @@ func c09LockDiscipline(outside []uint64) *vlib.Failure {
 		}
 		held = held[1:]
 	}
-	// both calls must wait while somebody else holds the lock
+	// A call that arrives while somebody else is inside the allocator. The harness plays that
+	// somebody by holding the allocator lock for a moment. How the call copes - waiting for the
+	// lock, or getting its work done some other way - is the allocator's business; what counts
+	// is the outcome once the lock has been released and the call has returned, judged with
+	// nothing else running: a frame handed out is one nobody holds, and a frame whose FreeFrame
+	// reported success is allocatable again.
+	fill := func() {
+		for {
+			f, err := alloc.AllocFrame()
+			if err != nil {
+				return
+			}
+			held = append(held, f)
+		}
+	}
 	for _, which := range []string{"AllocFrame", "FreeFrame"} {
-		if which == "FreeFrame" && len(held) == 0 {
+		fill() // every frame is held: the next frame to become free is the only free one
+		if len(held) == 0 {
 			continue
 		}
+		victim := held[len(held)-1]
+		held = held[:len(held)-1]
+		if which == "AllocFrame" {
+			if err := alloc.FreeFrame(victim); err != nil {
+				return vlib.Failf("FreeFrame(%#x) of a held frame failed: %s", uint64(victim), err.Message)
+			}
+		}
 		alloc.mutex.Acquire()
-		done := make(chan struct{})
+		var (
+			got    mm.Frame
+			gotErr *kernel.Error
+			done   = make(chan struct{})
+		)
 		go func() {
 			if which == "AllocFrame" {
-				if f, err := alloc.AllocFrame(); err == nil {
-					held = append(held, f)
-				}
+				got, gotErr = alloc.AllocFrame()
 			} else {
-				alloc.FreeFrame(held[len(held)-1])
-				held = held[:len(held)-1]
+				gotErr = alloc.FreeFrame(victim)
 			}
 			close(done)
 		}()
-		early := false
 		select {
 		case <-done:
-			early = true
+			c09LockFreeCalls.Add(1)
 		case <-time.After(300 * time.Microsecond):
 		}
 		alloc.mutex.Release()
-		if early {
-			return vlib.Failf("%s completed while another task held the allocator lock (it does not take the lock)", which)
-		}
 		if !vlib.StartPatience(c09Patience).Wait(done) {
 			vlib.Die("C09", nil, vlib.Failf("%s did not complete within %v after the allocator lock was released", which, c09Patience))
 		}
+		if fl := free(which + " after waiting for the lock"); fl != nil {
+			return fl
+		}
+		if which == "AllocFrame" {
+			if gotErr != nil {
+				return vlib.Failf("AllocFrame called while another task was inside the allocator reported %q although frame %#x was free the whole time", gotErr.Message, uint64(victim))
+			}
+			if got != victim {
+				return vlib.Failf("AllocFrame called while another task was inside the allocator returned frame %#x; the only free frame is %#x", uint64(got), uint64(victim))
+			}
+			held = append(held, got)
+			continue
+		}
+		if gotErr != nil {
+			return vlib.Failf("FreeFrame(%#x) of a held frame, called while another task was inside the allocator, failed: %s", uint64(victim), gotErr.Message)
+		}
+		// the freed frame is allocatable again (and it is the only one)
+		f, err := alloc.AllocFrame()
+		if err != nil {
+			return vlib.Failf("frame %#x was freed (FreeFrame returned success, called while another task was inside the allocator); with nothing else running the next AllocFrame reports %q: the freed frame is not allocatable", uint64(victim), err.Message)
+		}
+		if f != victim {
+			return vlib.Failf("frame %#x was freed while another task was inside the allocator; the next AllocFrame returned %#x, which is held", uint64(victim), uint64(f))
+		}
+		held = append(held, f)
 	}
 	for _, f := range held {
 		alloc.FreeFrame(f)
@@ -423,6 +470,7 @@ func TestVerifC09(t *testing.T) {
 		}
 		st.Add("calls_completed", rs.allocs+rs.frees+rs.ooms)
 		st.Add("lock_contention_events", rs.contention)
+		st.Add("calls_that_completed_while_the_harness_held_the_allocator_lock", c09LockFreeCalls.Swap(0))
 		st.Case(c, nw >= 4 && rs.ooms > 0 && rs.contention > 0, labels...)
 		vlib.Report(t, "C09", c, fail)
 	})
